@@ -175,6 +175,26 @@ def _thr(ctx, g, f, rule, var_text):
     return rule
 
 
+_OPTIONAL_HELPERS = {"_checkForTrailingComma", "_processPayload", "_prepareForPayloadConsumption", "_checkStringSize"}
+
+
+def _wide(ctx, qual):
+    """View of a NetstringReceiver method with the single-purpose helpers the rules used to look up by name (comma check, payload hand-over, payload
+    state reset, digit pre-check) expanded where they are called: the clause is judged on what the caller does, whether those steps live in
+    helpers of their own or are written out in place."""
+    from sa.props._lib_d import Inliner
+    inl = ctx.__dict__.get("_wide_inl")
+    if inl is None:
+        names = {n for ns in KNOWN[B].values() for n in ns} - _OPTIONAL_HELPERS
+        inl = ctx.__dict__["_wide_inl"] = Inliner(ctx.mod(B), ["NetstringReceiver"], names, extended=True)
+    return inl.view(ctx.func(B, qual))
+
+
+def _has_method(ctx, cls_name, name):
+    from sa.source import methods as _ms
+    return name in _ms(ctx.cls(B, cls_name))
+
+
 def _all_decided(ctx, g, facts, var, rule, c, srcs=None, avoid=()):
     """The facts of a boundary point decide every test (reached from ``srcs``) that reads the measured quantity.  When one is left open - the comparison
     is made by a helper the normaliser did not read through, say - following both outcomes would 'find' a wrong delivery on the branch that cannot
@@ -725,22 +745,33 @@ def _netstring(ctx):
         fm = _F(ctx, B, "NetstringReceiver._maxLengthSize")
         rm = [x for x in walk_local(fm) if isinstance(x, ast.Return) and x.value is not None]
         ctx.need(len(rm) == 1, "single return in _maxLengthSize")
-        fc = _F(ctx, B, "NetstringReceiver._checkStringSize")
+        # judged where the pre-check takes effect: _extractLength (its _checkStringSize helper expanded, or written out in place) must accept the
+        # decimal representation of MAX_LENGTH itself for every magnitude of MAX_LENGTH
+        fc = _wide(ctx, "NetstringReceiver._extractLength")
         gc = ctx.cfg(fc)
         pc = fc.args.args[1].arg
         rzc = _raises(gc, "NetstringParseError")
+        where = Q + ("NetstringReceiver._checkStringSize" if _has_method(ctx, "NetstringReceiver", "_checkStringSize") else "NetstringReceiver._extractLength | <digit pre-check>")
         bad = []
+        open_ = None
         for mx in (1, 2, 9, 10, 11, 99, 100, 101, 999, 1000, 99999, 100000, 10 ** 9, 12345678):
             try:
                 size = peval(rm[0].value, {"self.MAX_LENGTH": mx})
             except NotConst as e:
                 bad.append((mx, f"not evaluable: {e}"))
                 continue
-            R = reach_under(gc, {f"len({pc})": len(str(mx)), "self._maxLengthSize()": size})
-            if R & set(rzc):
-                bad.append((mx, f"_maxLengthSize()={size} rejects a {len(str(mx))}-digit length"))
-        ctx.check(not bad, "netstring/digit-precheck", Q + "NetstringReceiver._checkStringSize",
-                  f"the digit-count pre-check refuses a length that is <= MAX_LENGTH: {bad[:3]}")
+            facts = {pc: str(mx).encode(), "self.MAX_LENGTH": mx, "self._maxLengthSize()": size}
+            und = undecided_tests(gc, facts)
+            if und:
+                open_ = src(gc.node(und[0]).ast)
+                continue
+            R = reach_under(gc, facts)
+            if R & set(rzc) or gc.exit not in R:
+                bad.append((mx, f"_maxLengthSize()={size} rejects the {len(str(mx))}-digit length {mx} == MAX_LENGTH"))
+        if open_ is not None and not bad:
+            ctx.note(f"netstring/digit-precheck: not decided, _extractLength also branches on {open_[:80]!r}; clause left to netstring/segmentation-invariant")
+        else:
+            ctx.check(not bad, "netstring/digit-precheck", where, f"the digit-count pre-check refuses a length that is <= MAX_LENGTH: {bad[:3]}")
         # _payloadComplete / _consumePayload / _extractPayload
     with ctx.section("netstring _payloadComplete"):
         # ---- ns payloadComplete
@@ -795,7 +826,6 @@ def _netstring(ctx):
         gcp = ctx.cfg(fcp)
         qcp = Q + "NetstringReceiver._consumePayload"
         ext = call_nodes(gcp, "self._extractPayload")
-        comma = call_nodes(gcp, "self._checkForTrailingComma")
         proc = call_nodes(gcp, "self._processPayload", "self.stringReceived")
         inc = _raises(gcp, "IncompleteNetstring")
         ctx.need(ext and proc, "_extractPayload / _processPayload calls in _consumePayload")
@@ -811,27 +841,38 @@ def _netstring(ctx):
         R = reach_under(gcp, {"self._currentPayloadSize": 4, "self._expectedPayloadSize": 5}, srcs=after)
         ctx.check(not (R & set(proc)) and bool(R & set(inc)), "netstring/incomplete-message-waits", qcp + " | <one byte missing>",
                   "a netstring is delivered (or rejected) before its last byte arrived")
-        for p_ in proc:
-            w = gcp.must_precede(comma, [p_])
-            ctx.check(bool(comma) and w is None, "netstring/comma-checked", ctx.construct(qcp, gcp.node(p_).ast),
-                      "the payload is delivered without checking the terminating comma", witness=gcp.describe(w))
-    with ctx.section("netstring comma and payload"):
-        # ---- ns comma
-        ftc = _F(ctx, B, "NetstringReceiver._checkForTrailingComma")
-        gtc = ctx.cfg(ftc)
-        rzt = _raises(gtc, "NetstringParseError")
-        R1 = reach_under(gtc, {"self._payload.getvalue()": b"ab,"})
-        R2 = reach_under(gtc, {"self._payload.getvalue()": b"abc"})
-        ctx.check(not (R1 & set(rzt)) and bool(R2 & set(rzt)) and gtc.exit not in R2, "netstring/comma-checked", Q + "NetstringReceiver._checkForTrailingComma",
-                  "the byte after the payload is not required to be exactly ','")
-        fpp = _F(ctx, B, "NetstringReceiver._processPayload")
-        okp = False
-        for c in (x for x in walk_local(fpp) if isinstance(x, ast.Call) and call_name(x) == "self.stringReceived" and x.args):
-            try:
-                okp = peval(c.args[0], {"self._payload.getvalue()": b"ab,"}) == b"ab"
-            except NotConst:
-                okp = False
-        ctx.check(okp, "netstring/payload-without-comma", Q + "NetstringReceiver._processPayload", "stringReceived does not get the payload without the trailing comma")
+        # the terminating comma and what is handed over, judged on what _consumePayload does once the payload is complete (helpers expanded or written
+        # out in place): a payload not followed by ',' raises NetstringParseError and delivers nothing; otherwise exactly the bytes before the comma
+        fw = _wide(ctx, "NetstringReceiver._consumePayload")
+        gw = ctx.cfg(fw)
+        extw = call_nodes(gw, "self._extractPayload")
+        afterw = [s_ for e in extw for s_ in succ_of(gw, e, None)]
+        dl = calls_with(gw, "self.stringReceived")
+        rzw = _raises(gw, "NetstringParseError")
+        full = {"self._currentPayloadSize": 3, "self._expectedPayloadSize": 3}
+        if not afterw or not dl:
+            ctx.note("netstring/comma-checked, netstring/payload-without-comma: no stringReceived hand-over found in _consumePayload after _extractPayload; "
+                     "clauses left to netstring/reference-framing")
+        else:
+            Rb = reach_under(gw, dict(full, **{"self._payload.getvalue()": b"abc"}), srcs=afterw)
+            ctx.check(not (Rb & {n for n, _ in dl}) and bool(Rb & set(rzw)) and gw.exit not in Rb, "netstring/comma-checked", qcp + " | <payload not followed by a comma>",
+                      "the payload is delivered without checking the terminating comma (or a missing comma is not a NetstringParseError)",
+                      witness=gw.describe(path_under(gw, dict(full, **{"self._payload.getvalue()": b"abc"}), [n for n, _ in dl], srcs=afterw)))
+            good = dict(full, **{"self._payload.getvalue()": b"ab,"})
+            Rg = reach_under(gw, good, srcs=afterw)
+            ctx.check(not (Rg & set(rzw)), "netstring/comma-checked", qcp + " | <payload followed by a comma>", "a correctly terminated payload is refused")
+            handed = []
+            for n_, c_ in dl:
+                for fa in facts_at(gw, good, [n_], srcs=afterw):
+                    try:
+                        handed.append(peval(c_.args[0], fa) if c_.args else None)
+                    except NotConst:
+                        handed.append(NotConst)
+            if any(v is NotConst for v in handed):
+                ctx.note("netstring/payload-without-comma: the argument of stringReceived could not be evaluated; clause left to netstring/reference-framing")
+            else:
+                ctx.check(handed == [b"ab"], "netstring/payload-without-comma", qcp + " | <hand-over>",
+                          f"for the buffered payload b'ab,' stringReceived gets {handed!r}, not exactly the payload without the trailing comma")
     with ctx.section("netstring _processLength"):
         # ---- ns processLength
         fpl = _F(ctx, B, "NetstringReceiver._processLength")
@@ -880,13 +921,24 @@ def _netstring(ctx):
                   Q + "NetstringReceiver._handleParseError", "_handleParseError does not close the connection")
     with ctx.section("netstring payload state reset"):
         # ---- ns prepare
-        fpr = _F(ctx, B, "NetstringReceiver._prepareForPayloadConsumption")
+        # judged in _consumeData, where the parser moves from the length to the payload (the preparation helper expanded or written out in place)
+        fpr = _wide(ctx, "NetstringReceiver._consumeData")
         gpr = ctx.cfg(fpr)
-        need = [self_assigns(gpr, "_state", lambda v: src(v) == "self._PARSING_PAYLOAD"),
-                self_assigns(gpr, "_currentPayloadSize", lambda v: const_value_is(v, lambda x: x == 0 and x is not False)),
-                call_nodes(gpr, "self._payload.truncate")]
-        ctx.check(all(ns and gpr.must_pass([gpr.entry], ns) is None for ns in need), "netstring/payload-state-reset", Q + "NetstringReceiver._prepareForPayloadConsumption",
-                  "before a new payload the state, the size counter and the payload buffer are not all reset (the previous message leaks into the next)")
+        where = Q + ("NetstringReceiver._prepareForPayloadConsumption" if _has_method(ctx, "NetstringReceiver", "_prepareForPayloadConsumption") else "NetstringReceiver._consumeData | <payload begins>")
+        to_payload = self_assigns(gpr, "_state", lambda v: src(v) == "self._PARSING_PAYLOAD")
+        need = [self_assigns(gpr, "_currentPayloadSize", lambda v: const_value_is(v, lambda x: x == 0 and x is not False)), call_nodes(gpr, "self._payload.truncate")]
+        if not to_payload:
+            ctx.note("netstring/payload-state-reset: no 'self._state = self._PARSING_PAYLOAD' in _consumeData (helpers expanded); clause left to netstring/segmentation-invariant")
+        else:
+            consume = call_nodes(gpr, "self._consumePayload")
+            ok = True
+            for sp_ in to_payload:
+                for ns in need:
+                    before = bool(ns) and gpr.must_precede(ns, [sp_]) is None
+                    after_ = bool(ns) and bool(succ_of(gpr, sp_, None)) and gpr.must_pass(succ_of(gpr, sp_, None), ns, to=[gpr.exit] + consume) is None
+                    ok = ok and (before or after_)
+            ctx.check(ok, "netstring/payload-state-reset", where,
+                      "before a new payload the state, the size counter and the payload buffer are not all reset (the previous message leaks into the next)")
     with ctx.section("netstring writer"):
         # writer
         ff = _F(ctx, B, "_formatNetstring")
